@@ -151,6 +151,14 @@ class VisibilityGraph(InteractingNetworks):
         A = np.zeros((N, N), dtype=MASK)
 
         _visibility_relations_horizontal(x, N, A)
+
+        if self.missing_values:
+            # missing samples block visibility (NaN comparisons in the
+            # kernel) and must stay isolated, as in visibility_relations()
+            mv_indices = self.missing_value_indices
+            A[mv_indices, :] = 0
+            A[:, mv_indices] = 0
+
         return A
 
     #
